@@ -66,11 +66,25 @@ func parseTiType(s string) (MT, bool) {
 	s = strings.TrimSpace(s)
 	switch {
 	case strings.HasPrefix(s, "Union<") && strings.HasSuffix(s, ">"):
-		inner := s[6 : len(s)-1]
-		if strings.ContainsAny(inner, "<>") {
-			return MT{}, false // nested structure: not compared
+		// members at depth 0; a container member counts with its outer class
+		members, ok := splitTypeMembers(s[6 : len(s)-1])
+		if !ok {
+			return MT{}, false
 		}
-		return mt(strings.Fields(inner)...), true
+		var atoms []string
+		for _, m := range members {
+			switch {
+			case strings.HasPrefix(m, "Union<"):
+				return MT{}, false // a union inside a union: see nestedUnion
+			case strings.HasPrefix(m, "Array<"):
+				atoms = append(atoms, "Array")
+			case tiTypeWordRe.MatchString(m):
+				atoms = append(atoms, m)
+			default:
+				return MT{}, false
+			}
+		}
+		return mt(atoms...), true
 	case strings.HasPrefix(s, "Array<") && strings.HasSuffix(s, ">"):
 		inner := s[6 : len(s)-1]
 		if strings.ContainsAny(inner, "<>") {
@@ -81,6 +95,48 @@ func parseTiType(s string) (MT, bool) {
 		return mt(s), true
 	}
 	return MT{}, false
+}
+
+// splitTypeMembers splits "A Array<B C> D" at the spaces outside <...>.
+func splitTypeMembers(s string) ([]string, bool) {
+	var out []string
+	depth, start := 0, 0
+	for i := 0; i <= len(s); i++ {
+		switch {
+		case i < len(s) && s[i] == '<':
+			depth++
+		case i < len(s) && s[i] == '>':
+			depth--
+			if depth < 0 {
+				return nil, false
+			}
+		case i == len(s) || (s[i] == ' ' && depth == 0):
+			if i > start {
+				out = append(out, s[start:i])
+			}
+			start = i + 1
+		}
+	}
+	return out, depth == 0
+}
+
+// nestedUnion reports a union written directly inside a union
+// ("Union<Union<A B> C>"): a printed type is flat.
+func nestedUnion(s string) bool {
+	s = strings.TrimSpace(s)
+	if !strings.HasPrefix(s, "Union<") || !strings.HasSuffix(s, ">") {
+		return false
+	}
+	members, ok := splitTypeMembers(s[6 : len(s)-1])
+	if !ok {
+		return false
+	}
+	for _, m := range members {
+		if strings.HasPrefix(m, "Union<") {
+			return true
+		}
+	}
+	return false
 }
 
 // ----- the program
@@ -177,7 +233,9 @@ func literalOfClass(r *RNG, cl string) (string, MT) {
 	case "Integer":
 		return fmt.Sprintf("%d", 1+r.Intn(50)), mt("Integer")
 	case "String":
-		return Pick(r, []string{"\"a\"", "\"hello\"", "\"x y\""}), mt("String")
+		// (texts that look like other syntax: splat, block argument, keyword,
+		// symbol, number)
+		return Pick(r, []string{"\"a\"", "\"hello\"", "\"x y\"", "\"*star\"", "\"*a b\"", "\"&blk\"", "\"**kw\"", "\":sym\"", "\"12\"", "\"Hello\""}), mt("String")
 	case "Float":
 		return fmt.Sprintf("%d.5", r.Intn(9)), mt("Float")
 	case "Symbol":
@@ -567,7 +625,7 @@ func genTypedProgram(r *RNG, model *CfgModel, userClasses []*GClass, n int) []*t
 		add(&tStmt{Text: "dbtp " + text, Kind: "probe", Want: &w, RetKind: kind, Tainted: tainted})
 	}
 	collOp := func() {
-		switch r.Intn(10) {
+		switch r.Intn(11) {
 		case 7: // nested array literal, probed as a whole and through indexing
 			var leaves []string
 			var lit func(d, max int) string
@@ -712,6 +770,22 @@ func genTypedProgram(r *RNG, model *CfgModel, userClasses []*GClass, n int) []*t
 			h.keys[kt] = t
 			add(&tStmt{Text: h.name + "[" + kt + "] = " + l, Kind: "coll", Feature: "hash-store", Tainted: tainted})
 			probe(h.name+"["+kt+"]", t, "hash-store")
+		case 6: // Hash#delete: the declared [Unify, NilClass], one flat union
+			h := pickVar(isHash)
+			if h == nil {
+				return
+			}
+			var atoms []string
+			ks := make([]string, 0, len(h.keys))
+			for k, t := range h.keys {
+				ks = append(ks, k)
+				atoms = append(atoms, t.Atoms...)
+			}
+			sort.Strings(ks)
+			v := newVar(mt(append(atoms, "NilClass")...))
+			add(&tStmt{Text: v.name + " = " + h.name + ".delete(" + Pick(r, ks) + ")", Kind: "coll", Feature: "hash-delete", Tainted: tainted})
+			probe(v.name, v.ty, "hash-delete")
+			h.ty, h.keys = MT{Unknown: true}, nil
 		default: // hash lookup
 			h := pickVar(isHash)
 			if h == nil {
@@ -1139,6 +1213,11 @@ func judgeTyped(c *CheckCtx, rn Runner, tc *typedCase, prop string) *Violation {
 			if len(recs) != 1 {
 				return &Violation{Sig: "probe-output:" + s.RetKind, Kind: "typed", Case: mustJSON(tc),
 					What: fmt.Sprintf("row %d `%s`: expected exactly one type line, got %d", row, s.Text, len(recs)), Observed: clip(out, 2500)}
+			}
+			if nestedUnion(recs[0].Msg) {
+				return &Violation{Sig: "union-not-flat:ret=" + s.RetKind, Kind: "typed", Case: mustJSON(tc),
+					What:     fmt.Sprintf("row %d `%s`: ti reports %s, a union written inside a union (the model gives %s)", row, s.Text, recs[0].Msg, s.Want.String()),
+					Observed: clip(out, 2500)}
 			}
 			got, okp := parseTiType(recs[0].Msg)
 			if !okp {
